@@ -167,6 +167,9 @@ class Result:
     pass
 
 
+STALE_LOG = '{"logs": [\n' + ',\n'.join('{"board_id": "old-%d", "contract": "Passed_out", "note": "%s"}' % (i, 'x' * 300) for i in range(120)) + '\n]}'
+
+
 def seed_for_server_deals(scenario):
     """Boards that leave the deal to the table manager are dealt with the global `random` module by the main thread, in
     board order: seeded from the scenario, the deals are a function of the scenario alone (not of the schedule)."""
@@ -243,6 +246,10 @@ def run_session(scenario, schedule, clients=None, fault=None, kernel_hook=None, 
     os.makedirs(workdir, exist_ok=True)
     fd, out_path = tempfile.mkstemp(suffix='.json', dir=workdir)
     os.close(fd)
+    # the output path already holds the (longer) complete log of an earlier session, as output.json does on a second run:
+    # "File will be overwritten"
+    with open(out_path, 'w') as f:
+        f.write(STALE_LOG)
     net = O.Network(split=scenario.get('split'))
     kernel = Kernel(schedule if callable(schedule) else make_chooser(schedule), max_steps=max_steps)
     kernel.keep_log = keep_log
